@@ -3,6 +3,7 @@
 static struct { const char *name; int (*fn)(FILE *, FILE *); } cmds[] = {
     {"openenum", cmd_openenum},
     {"writehist", cmd_writehist},
+    {"compint", cmd_compint},
     {NULL, NULL}
 };
 
